@@ -422,6 +422,17 @@ func restScenC18(d *restDriver, c *ctx) {
 		d.do(seq, d.jobSuite(c, fmt.Sprintf("C18/suite/unknown/%q", name), name))
 	}
 	d.do(seq, d.jobSuites("C18/suites", false))
+	// the same descriptions and the list once more after other traffic: an answer does not depend on having been given before
+	for i := 0; i < c.n(20, 200); i++ {
+		d.do(seq, d.randomTyped(c, fmt.Sprintf("C18/between/%d", i), false))
+	}
+	for i, name := range d.suites {
+		d.do(seq, d.jobSuite(c, fmt.Sprintf("C18/suite/again/%d", i), name))
+		if i%7 == 0 {
+			d.do(seq, d.randomTyped(c, fmt.Sprintf("C18/between2/%d", i), false))
+		}
+	}
+	d.do(seq, d.jobSuites("C18/suites/again", false))
 	// generate -> validate chains: the code one endpoint generates validates at the matching endpoint
 	for i := 0; i < c.n(40, 600); i++ {
 		key := c.randBytes(20)
